@@ -25,6 +25,9 @@ STRT = "TYPE\n  STR10 : STRING[10];\nEND_TYPE\n"
 SINIT = "TYPE\n  PT2 : PT := (x := 1);\nEND_TYPE\n"
 LATEB = "TYPE\n  LVL3 : LVL;\nEND_TYPE\n"
 SUBR_AS_LVL = "TYPE\n  LVL : INT (1..10);\nEND_TYPE\n"
+LATEC = "TYPE\n  LVL4 : lvl3;\nEND_TYPE\n"          # an alias of an alias, referring to it in another letter case
+STRUCT_AS_TON = "TYPE\n  TON : STRUCT\n    q : INT;\n  END_STRUCT;\nEND_TYPE\n"
+XTIMER = "FUNCTION_BLOCK XTIMER\n  VAR\n    a : INT;\n  END_VAR\n  a := a + 3;\nEND_FUNCTION_BLOCK\n"
 STRUCT_AS_FN = "TYPE\n  FN : STRUCT\n    q : INT;\n  END_STRUCT;\nEND_TYPE\n"
 ENUM_AS_MAIN = "TYPE\n  MAIN : (M_A, M_B) := M_A;\nEND_TYPE\n"
 STR_AS_ARR = "TYPE\n  ARR : STRING[10];\nEND_TYPE\n"
@@ -45,6 +48,9 @@ KINDS = {
     "RX": ("LVL", [], SUBR_AS_LVL),
     "CX": ("LVL", [], FB_AS_LVL),
     "ASX": ("ARR", [], STR_AS_ARR),
+    "LC": ("LVL4", ["LVL3"], LATEC),
+    "TTON": ("TON", [], STRUCT_AS_TON),
+    "XT": ("XTIMER", [], XTIMER),
     "TFN": ("FN", [], STRUCT_AS_FN),
     "TMAIN": ("MAIN", [], ENUM_AS_MAIN),
     "E": ("LVL", [], ENUM),
@@ -60,6 +66,7 @@ KINDS = {
 
 # context-free rule violations (the documented 'Fails' shapes), per declaration kind: (text, code, lexeme the label must name)
 RULE_FAULT = {
+    "XT": (XTIMER.replace("    a : INT;\n", "    a : INT;\n    t : TON;\n"), "P0029", "TON"),        # a standard function block that is not implemented
     "V": (VICTIM.replace("a := a + 1;", "c(in1 := a, out1 => a);"), "P0021", "c(in1 := a, out1 => a)"),      # the label covers the invocation; c is an instance of USER, not of VICTIM
     "W": (WANDER.replace("a := a + 2;", "a := n + 2;"), "P0015", "n"),                   # n is a variable of MAIN, not of WANDER
     "R": (SUBR.replace("1..10", "10..1"), "P0004", "10"),
@@ -143,10 +150,13 @@ def scenarios():
     sc["cross_tAS"] = [("E", "none"), ("AR", "none"), ("ASX", "none")]
     # valid sets made of every kind of data type declaration (aliases, structure initialisations ... before / after what they need)
     sc["validLB"] = [("E", "none"), ("LB", "none"), ("C", "none")]
+    sc["validLC"] = [("E", "none"), ("LB", "none"), ("LC", "none"), ("C", "none")]
     sc["validT5"] = [("E", "none"), ("LB", "none"), ("S", "none"), ("SI", "none"), ("C", "none")]
     sc["validT8"] = [("E", "none"), ("E2", "none"), ("LB", "none"), ("S", "none"), ("SI", "none"), ("R", "none"), ("AR", "none"), ("ST", "none")]
     # a VALID data type that has the name of a FAULTY function / program: the fault must still be found
     # (functions and programs are not types: the coincidence of the names is legal and is not a duplicate)
+    # a data type named like the standard function block a faulty declaration refers to
+    sc["rule_XT"] = [("E", "none"), ("C", "none"), ("TTON", "none"), ("XT", "rule")]
     sc["rule_TF"] = [("E", "none"), ("C", "none"), ("TFN", "none"), ("F", "rule")]
     sc["rule_TM"] = [("E", "none"), ("E2", "none"), ("C", "none"), ("U", "none"), ("TMAIN", "none"), ("M", "rule")]
     sc["cross_RX"] = [(x, "none") for x in ["E", "C", "RX"]]
@@ -184,7 +194,7 @@ def write_specs():
                  "ScName == " + "<<" + ", ".join('"%s"' % SPEC_NAME.get(k, KINDS[k][0]) for k, f in decls) + ">>",
                  "ScDeps == " + "<<" + ", ".join("{" + ", ".join('"%s"' % d for d in KINDS[k][1]) + "}" for k, f in decls) + ">>",
                  "ScFault == " + "<<" + ", ".join('"%s"' % tla_fault(f) for k, f in decls) + ">>",
-                 "ScSortDeps == " + "<<" + ", ".join("{" + ", ".join('"%s"' % d for d in (KINDS[k][1] if k in ("E2", "LB") else [])) + "}" for k, f in decls) + ">>",
+                 "ScSortDeps == " + "<<" + ", ".join("{" + ", ".join('"%s"' % d for d in (KINDS[k][1] if k in ("E2", "LB", "LC") else [])) + "}" for k, f in decls) + ">>",
                  "ScSpace == " + "<<" + ", ".join('"%s"' % SPACE.get(k, "data") for k, f in decls) + ">>",
                  "===="]
         with open(os.path.join(SPEC, mod + ".tla"), "w") as fh:
